@@ -1,4 +1,4 @@
 (* Extraction of the core-loop model (and its monitors) for the correspondence checks. *)
 From Coq Require Import ExtrOcamlBasic.
-From Ivv Require Import Core.Kernel Core.CoreTypes Core.CoreModel Core.Monitors Core.GuardMon.
-Extraction "core_model.ml" CoreModel.run_scenario Kernel.no_faults Monitors.mon_fails GuardMon.gmon_fails.
+From Ivv Require Import Core.Kernel Core.CoreTypes Core.CoreModel Core.Monitors Core.GuardMon Core.FairMon.
+Extraction "core_model.ml" CoreModel.run_scenario Kernel.no_faults Monitors.mon_fails GuardMon.gmon_fails FairMon.fair_fails.
